@@ -16,6 +16,7 @@ def run(ck):
     q = ck.tier == "quick"
     tids = gen.Tids()
     progs = algebra.array_programs(ck.seed, 60 if q else 1200, tids=tids)
+    progs += algebra.diag_programs(ck.seed, 60 if q else 1000, tids=tids)
     progs += algebra.vector_programs(ck.seed, 40 if q else 800, tids=tids)
     ck.cov["rule"] = ("random sparse abelian arrays (with a same-shape partner storing different sectors, a diagonal vector "
                       "possibly missing charges) and block vectors; every listed operation through method / symmray / autoray; "
